@@ -144,6 +144,9 @@ def run(ctx):
     ctx.negative_controls("RunsTrace", "Trace.cfg", bad, name="one digest changed / refeed differs", shards=2, max_per_shard=2)
     ctx.assume("FASTA maps are compared as sets of member proteins (the join order of shared_peptides values is not part of the statement)")
     ctx.assume("domain: FASTA with decoys (target-only FASTA uses the global NumPy RNG)")
+    # the property as observed at the command line: how the user's options reach the stages (CliFlow.tla, drivers/cliflow.py)
+    from drivers import cliflow
+    cliflow.family(ctx, "C08", model_check=False, light=True)
     return ctx.finish(
         rule="a case = one analysis session (brew with a LinearSVC model, in every other group with subset_max_train below the training-set "
              "size, + assign_confidence with qvality PEPs, optionally proteins from a FASTA with sub-proteins and same-sequence entries) of a "
@@ -153,6 +156,9 @@ def run(ctx):
 
 
 def replay(ctx, case):
+    if isinstance(case.get("case"), dict) and case["case"].get("kind") == "cliflow":
+        from drivers import cliflow
+        return cliflow.replay(ctx, case, "C08")
     from drivers import c08_worker
     base = case["case"]["group"]
     r1 = c08_worker.session(base)
